@@ -161,8 +161,10 @@ def native_violates(nat, script):
     anyc = any(s == 'complete' for s in final.values())
     anyp = any(s == 'pending' for s in final.values())
     faulted = any('fault' in st for st in script.get('steps', []))
-    if res == 'err' and faulted:
-        return False            # an injected RPC error may be passed on: the oracle only forbids Ok(None) / a wrong Ok(Some)
+    if res == 'err' and faulted and script.get('kind') != 'pay':
+        # wait_payment may pass an injected RPC error on (the oracle only forbids Ok(None) / a wrong Ok(Some));
+        # pay may not: it keeps asking until the outcome is known
+        return False
     if res == 'none' or res == 'err':
         return anyc or anyp
     if res == 'some':
@@ -174,7 +176,7 @@ def main(tier, seed, args):
     c = ctx('on')
     nparts = (0, 1, 2) if tier == 'quick' else (0, 1, 2, 3)
     codes = (202, 203, 204, 208, 209)      # every code wait_payment treats as 'this part is over'
-    rep.bounds = {'parts': max(nparts), 'waitsendpay_failure_codes': list(codes),
+    rep.bounds = {'parts': max(nparts), 'waitsendpay_failure_codes': '%s (3 parts: 203, 204)' % list(codes),
                   'faults': '1 non-tolerated RPC error on listsendpays or waitsendpay (codes 200 / transport; thorough: also -1, 999)',
                   'outside': 'more than %d parts; parts created while waiting (a running pay is C16)' % max(nparts)}
     rep.assumptions = ['node model of listsendpays / waitsendpay (env_node.py): part states are monotone; each RPC takes effect at one linearisation point',
@@ -182,8 +184,9 @@ def main(tier, seed, args):
                        'SHA-256(preimage) = hash is the node\'s contract: preimages are terms pre(H)']
     rep.trusted = ['mirsym', 'z3', 'tokio/futures contracts', 'node model']
     for k in nparts:
-        h = WaitHarness(c, k, codes)
-        ex = run_explorer(rep, c, h, 'wait_payment[%d parts]' % k, max_states=300000)
+        # (3 parts x 5 codes exceeds 300 000 states since the wrapper in src/rpc.rs runs too: 3 parts use two codes)
+        h = WaitHarness(c, k, codes if k < 3 else (203, 204))
+        ex = run_explorer(rep, c, h, 'wait_payment[%d parts]' % k, max_states=300000 if k < 3 else 1000000)
         report(rep, 'wait_payment[%d parts]' % k, ex)
         if ex.violations:
             break
